@@ -40,6 +40,12 @@
 
 namespace vf {
 
+// Root of the verification tree / of the draco tree the check runs against. bin/check exports
+// VERIF_ROOT (its own location) so that a copy of /verif uses its own corpus, not /verif's.
+inline std::string VerifRoot() { const char *e = getenv("VERIF_ROOT"); return (e && *e) ? e : "/verif"; }
+inline std::string RepoRoot() { const char *e = getenv("VERIF_REPO"); return (e && *e) ? e : "/repo"; }
+
+
 inline std::string JsonEscape(const std::string &s) {
   std::string o;
   o.reserve(s.size() + 8);
